@@ -5,6 +5,7 @@ From Coq Require Import QArith Reals.
 Require Import SC3.lib.PyNum SC3.gen.Gen_builtins SC3.gen.Gen_builtinsR.
 Require Import SC3.proofs.C15_kernels SC3.proofs.C15_real SC3.proofs.C15_general SC3.proofs.C15_clip.
 Require Import SC3.model.ListAlg SC3.model.Lift SC3.proofs.C15_lift.
+Require Import SC3.gen.Gen_maps SC3.proofs.C15_lift_maps.   (* lifting half, round 6: linlin regenerated per clip mode *)
 
 (* --- range laws, float arguments --------------------------------------- *)
 Theorem mod_nonneg_float : forall a b : Q, (0 < b)%Q ->
@@ -562,6 +563,35 @@ Proof. vm_compute. reflexivity. Qed.
 
 Print Assumptions chan_method_narop_wrap_law.
 Print Assumptions inval_unop_embedded.
+
+(* --- round 6: n-ary operators with an optional MODE argument (linlin(..., clip)), kernel regenerated per mode ---
+   needs:  Require Import SC3.gen.Gen_maps SC3.proofs.C15_lift_maps.   (gen/Gen_maps.v: harness/translator/t_maps.py) *)
+(* the regenerated linlin with clip = None is the affine map; every clip mode equals it except exactly where that
+   mode clips ('minmax' at both ends, 'min' only below inmin, 'max' only above inmax) *)
+Theorem linlin_none_affine :
+  forall x a b c d : Q, Qeq_bool (b - a) 0 = false ->
+  Gen_maps.py_linlin_none (F x) (F a) (F b) (F c) (F d) = F ((x - a) / (b - a) * (d - c) + c)%Q.
+Proof. exact C15_lift_maps.linlin_none_affine. Qed.
+Theorem linlin_clip_modes :
+  forall x a b c d : Q,
+  Gen_maps.py_linlin_minmax (F x) (F a) (F b) (F c) (F d)
+    = (if Qle_bool x a then F c else if Qle_bool b x then F d else Gen_maps.py_linlin_none (F x) (F a) (F b) (F c) (F d))
+  /\ Gen_maps.py_linlin_min (F x) (F a) (F b) (F c) (F d)
+    = (if Qle_bool x a then F c else Gen_maps.py_linlin_none (F x) (F a) (F b) (F c) (F d))
+  /\ Gen_maps.py_linlin_max (F x) (F a) (F b) (F c) (F d)
+    = (if Qle_bool b x then F d else Gen_maps.py_linlin_none (F x) (F a) (F b) (F c) (F d)).
+Proof. exact C15_lift_maps.linlin_clip_modes. Qed.
+(* ChannelList([0, 3, 9]).linlin(1, 5, 10, 50, 'max') = [0.0, 30.0, 50]: the mode reaches every channel (0 is NOT clipped
+   below with 'max'), through the method form (flop) with the regenerated kernel; by chan_method_narop_wrap_law this is
+   the per-channel kernel call *)
+Example optional_mode_example :
+  Lift.chan_method_narop (Lift.SDec, C15_lift_maps.o5 Gen_maps.py_linlin_max)
+    (Lift.OSeq ListAlg.KChan (cons (Lift.ONum (I 0)) (cons (Lift.ONum (I 3)) (cons (Lift.ONum (I 9)) nil))))
+    (cons (Lift.ONum (I 1)) (cons (Lift.ONum (I 5)) (cons (Lift.ONum (I 10)) (cons (Lift.ONum (I 50)) nil))))
+  = Lift.OSeq ListAlg.KChan (cons (Lift.ONum (F (0 # 4))) (cons (Lift.ONum (F (120 # 4))) (cons (Lift.ONum (I 50)) nil))).
+Proof. vm_compute. reflexivity. Qed.
+
+Print Assumptions linlin_clip_modes.
 
 (* non-vacuity: the hypotheses are met by concrete arguments and the kernels compute *)
 Example wrap_example : canon (py_wrap (F (7 # 2)) (F (1 # 2)) (F (5 # 2))) = (1, 3, 2)%Z.
